@@ -1,7 +1,7 @@
 (* What C16 says about a built converter, written independently of the builder:
    index consistency, well-formed best lists, the layering fold, SI forms, and
    the comparison with a converter dumped from the running implementation. *)
-From Coq Require Export QArith Qabs Sorting.Sorted.
+From Coq Require Export QArith Qabs Sorting.Sorted Sorting.Permutation.
 From CL Require Export Model.Builder.
 Local Open Scope N_scope.
 
@@ -92,6 +92,85 @@ Definition last_best (q : pq) (files : list units_file) : option best_units :=
                fold_left (fun acc g => if pq_eqb (qg_quantity g) q
                                        then match qg_best g with Some b => Some b | None => acc end
                                        else acc) (uf_quantity f) acc) files None.
+
+(* the fractions blocks in the order given *)
+Definition fractions_layers (files : list units_file) : list fractions :=
+  flat_map (fun f => match uf_fractions f with Some fr => [fr] | None => [] end) files.
+
+(* the last block that sets a field *)
+Fixpoint last_set (sel : fractions -> option frac_wrapper) (l : list fractions) (d : option frac_wrapper)
+  : option frac_wrapper :=
+  match l with
+  | [] => d
+  | f :: r => last_set sel r (match sel f with Some x => Some x | None => d end)
+  end.
+
+(* what a fractions setting becomes in the converter: defaults filled in, values clamped *)
+Definition defined (w : option frac_wrapper) : option fcfg :=
+  option_map (fun w => fh_define (fw_get w)) w.
+
+(* the stored best list [l] holds exactly the units the names [ns] resolve to *)
+Definition resolves (c : converter) (ns : list str) (l : list (Q * nat)) : Prop :=
+  exists ids, Forall2 (fun n i => find_unit c n = Some i) ns ids /\ Permutation ids (map snd l).
+
+Definition best_from (c : converter) (q : pq) (b : best_units) : Prop :=
+  match b, c_best c q with
+  | BUnified ns, SUnified l => resolves c ns l
+  | BBySystem m i, SBySystem lm li => resolves c m lm /\ resolves c i li
+  | _, _ => False
+  end.
+
+(* an extend entry applied to a unit, as the precedence rule says *)
+Definition layered_unit (u : cunit) (e : ext_entry) (p : prec) : cunit :=
+  {| names := match xe_names e with Some l => layered (names u) l p | None => names u end;
+     symbols := match xe_symbols e with Some l => layered (symbols u) l p | None => symbols u end;
+     aliases := match xe_aliases e with Some l => layered (aliases u) l p | None => aliases u end;
+     ratio := match xe_ratio e with Some r => r | None => ratio u end;
+     difference := match xe_difference e with Some d => d | None => difference u end;
+     quantity := quantity u; usystem := usystem u |}.
+
+(* ---- the declared units, in the order the builder registers them -------- *)
+
+Definition entries_of (d : units_decl) : list (option system * unit_entry) :=
+  match d with
+  | UUnified l => map (fun e => (None, e)) l
+  | UBySystem m i u =>
+      map (fun e => (Some Metric, e)) m ++ map (fun e => (Some Imperial, e)) i ++ map (fun e => (None, e)) u
+  end.
+
+Definition declared (files : list units_file) : list (pq * option system * unit_entry) :=
+  flat_map (fun f =>
+    flat_map (fun g => match qg_units g with
+                       | Some d => map (fun se => (qg_quantity g, fst se, snd se)) (entries_of d)
+                       | None => []
+                       end) (uf_quantity f)) files.
+
+Definition unit_of (d : pq * option system * unit_entry) : cunit :=
+  let '(q, sys, e) := d in
+  {| names := ue_names e; symbols := ue_symbols e; aliases := ue_aliases e; ratio := ue_ratio e;
+     difference := ue_difference e; quantity := q; usystem := sys |}.
+
+Definition extend_layers (files : list units_file) : list extend :=
+  flat_map (fun f => match uf_extend f with Some x => [x] | None => [] end) files.
+
+(* SI forms: every prefixed name / symbol of a unit declared with expand_si resolves to a unit
+   whose ratio is the ratio of that unit times the power of ten of the prefix *)
+Definition si_forms_ok (files : list units_file) (c : converter) : Prop :=
+  forall j d u, nth_error (declared files) j = Some d -> ue_expand_si (snd d) = true ->
+    nth_error (c_units c) j = Some u ->
+    exists pt st, final_tables files = (Some pt, Some st) /\
+      forall p pre n,
+        (In pre (pt p) /\ In n (names u)) \/ (In pre (st p) /\ In n (symbols u)) ->
+        exists t tu, find_unit c (pre ++ n) = Some t /\ nth_error (c_units c) t = Some tu /\
+                     (ratio tu == ratio u * sipre_ratio p)%Q /\ quantity tu = quantity u.
+
+(* extend blocks, in the situation where the rule can be stated without replaying the builder:
+   one extend entry in all the layers, whose key is a key of a declared unit *)
+Definition single_extend_ok (files : list units_file) (c : converter) : Prop :=
+  forall p key e j d,
+    extend_layers files = [{| ex_prec := p; ex_units := [(key, e)] |}] ->
+    nth_error (declared files) j = Some d -> In key (all_keys (unit_of d)) ->
+    nth_error (c_units c) j = Some (layered_unit (unit_of d) e p).
 
 (* ---- comparison with a dump of a live converter ------------------------ *)
 
